@@ -130,6 +130,22 @@ def gen_file(path: Path) -> list[dict]:
             s = seg(lines, t)
             if s and t.lineno == t.end_lineno:
                 add("negcond", n, t.lineno - 1, t.col_offset, t.end_lineno - 1, t.end_col_offset, f"not ({s})", s)
+    # statement deletion: a call, an assignment, a raise or a return-with-value inside a function becomes `pass` / `return None`
+    for fn in ast.walk(tree):
+        if not isinstance(fn, (ast.FunctionDef, ast.AsyncFunctionDef)):
+            continue
+        for n in ast.walk(fn):
+            if in_debug_call(n, parents) or not hasattr(n, "lineno"):
+                continue
+            if isinstance(n, ast.Expr) and isinstance(n.value, ast.Call):
+                f = n.value.func
+                if isinstance(f, ast.Attribute) and isinstance(f.value, ast.Name) and f.value.id in ("_logger", "warnings"):
+                    continue
+                add("delstmt", n, n.lineno - 1, n.col_offset, n.end_lineno - 1, n.end_col_offset, "pass", (seg(lines, n) or "")[:60])
+            elif isinstance(n, (ast.Assign, ast.AugAssign)) and n.lineno == n.end_lineno:
+                add("delstmt", n, n.lineno - 1, n.col_offset, n.end_lineno - 1, n.end_col_offset, "pass", (seg(lines, n) or "")[:60])
+            elif isinstance(n, ast.Raise):
+                add("delraise", n, n.lineno - 1, n.col_offset, n.end_lineno - 1, n.end_col_offset, "pass", (seg(lines, n) or "")[:60])
     # every mutant must still compile
     ok = []
     for m in muts:
